@@ -667,7 +667,6 @@ class tzfile(_tzinfo):
         lastdst = None
         lastoffset = None
         lastdstoffset = None
-        lastbaseoffset = None
         out.trans_list = []
 
         for i, tti in enumerate(out.trans_idx):
@@ -685,23 +684,17 @@ class tzfile(_tzinfo):
                     tti.dstoffset = datetime.timedelta(seconds=dstoffset)
                     lastdstoffset = dstoffset
 
-            # If a time zone changes its base offset during a DST transition,
-            # then you need to adjust by the previous base offset to get the
-            # transition time in local time. Otherwise you use the current
-            # base offset. Ideally, I would have some mathematical proof of
-            # why this is true, but I haven't really thought about it enough.
-            baseoffset = offset - dstoffset
-            adjustment = baseoffset
-            if (lastbaseoffset is not None and baseoffset != lastbaseoffset
-                    and tti.isdst != lastdst):
-                # The base DST has changed
-                adjustment = lastbaseoffset
-
             lastdst = tti.isdst
             lastoffset = offset
-            lastbaseoffset = baseoffset
 
-            out.trans_list.append(out.trans_list_utc[i] + adjustment)
+            # In wall-clock terms a transition begins at the smaller of the
+            # two offsets around it: that is where a gap opens (offset goes
+            # up) and where the repeated interval of a fold begins (offset
+            # goes down), whichever of the two types is flagged as DST.
+            prevoffset = (out.trans_idx[i - 1].offset if i > 0
+                          else out.ttinfo_before.offset)
+            out.trans_list.append(out.trans_list_utc[i] +
+                                  min(prevoffset, offset))
 
         out.trans_idx = tuple(out.trans_idx)
         out.trans_list = tuple(out.trans_list)
@@ -797,7 +790,7 @@ class tzfile(_tzinfo):
         timestamp = _datetime_to_timestamp(dt)
         tti = self._get_ttinfo(idx)
 
-        if idx is None or idx <= 0:
+        if idx is None or idx < 0:
             return False
 
         od = self._get_ttinfo(idx - 1).offset - tti.offset
@@ -810,7 +803,7 @@ class tzfile(_tzinfo):
 
         # If we have no transitions, return the index
         _fold = self._fold(dt)
-        if idx is None or idx == 0:
+        if idx is None or idx < 0:
             return idx
 
         # If it's ambiguous and we're in a fold, shift to a different index.
